@@ -15,6 +15,7 @@ a closing quote, empty unquoted items) must raise ValueError and nothing else.
 import collections
 import itertools
 
+from vcheck import argtypes
 from vcheck import core
 from vcheck.core import Task, Violation
 
@@ -23,6 +24,8 @@ LEVEL = 'exploration'
 BUDGET = {'quick': 75, 'thorough': 480}
 # deterministic sub-checks repeated in a `python -O` child (core.optimized_child)
 OPT_SUBS = ('commas/malformed', 'split_path/exhaustive')
+# sub-checks repeated with str / int arguments as subclass instances
+SUBCLASS_SUBS = ('commas/malformed#1', 'split_path/exhaustive#2')
 # documented call interface the generated calls rely on (vcheck/callstyle.py)
 INTERFACE = [('oslo_utils.strutils', ['split_path', 'split_by_commas'])]
 # pairs of sampled cases are run against each other under every single
@@ -142,6 +145,7 @@ def _strict(path, minsegs, maxsegs, rwl):
 
 def real_split_path(path, minsegs, maxsegs, rwl):
     from oslo_utils import strutils
+    path = argtypes.maybe(path)
     try:
         r = strutils.split_path(path, minsegs, maxsegs, rwl)
     except ValueError:
@@ -437,7 +441,7 @@ def ref_scan3(value):
 def real_commas(value):
     from oslo_utils import strutils
     try:
-        r = strutils.split_by_commas(value)
+        r = strutils.split_by_commas(argtypes.maybe(value))
     except ValueError:
         return ('err',)
     except Exception as e:
